@@ -6025,9 +6025,21 @@ class CodegenCtx:
         elif transition.target in self.dfa.states:
             if transition.target in self.dfa.accepting_states:
                 transition_body.add(f"return {self.program_name.upper()}_DONE;")
+            elif self._state_only_passes_through(transition.target):
+                # conditions and actions that follow the end of input have yet to run
+                transition_body.add("goto repeatswitch;")
             else:
                 transition_body.add(f"return {self.program_name.upper()}_FAIL;")
         return transition_body.value()
+
+    def _state_only_passes_through(self, state: DFState):
+        """
+        Is this a state which never looks at the input: a condition point, or one which falls through to the same place whatever comes?
+        """
+        if isinstance(state, DFConditionPoint):
+            return True
+        return bool(state.transitions) and all(x.is_fallthrough and x.target == state.transitions[0].target and not x.actions for x in state.transitions) \
+                and any(DFTransition.Else in x.on_values for x in state.transitions)
 
     def _generate_condition(self, condition: DFCondition, from_end=False, from_action=False):
         use_ctx = {
